@@ -184,6 +184,7 @@ func init() {
 				{Harness: "packageonly.ZZC04Kernel3", Tier: "thorough", Desc: "the same with up to three lines (93 k paths)", Bounds: map[string]interface{}{"annotation_lines": "0..3"}},
 				{Harness: "zzverif/zzh.ZZC04Cross", Desc: "references from package u (path zzmod/u, name u) to @packageonly type/function/method of d: call, method call, method value, type in parameter/literal/var/field; allow-list shapes symbolic (bare, by name, by path, several entries + trailing comma, second annotation line = union, look-alike names, absent); same-package uses in d", Bounds: map[string]interface{}{"skeleton": "c04SrcD + c04SrcU", "holes": 4, "allow_list_spellings": "6 x 3 x 5 x 4"}},
 				{Harness: "zzverif/zzh.ZZC04Names", Desc: "two types of d with a method of the SAME name plus a function of that name, each with its own allow-list (5 holes, 960 spelling combinations); a user package that shares d's package NAME under another path (allowed only by 'd' or its full path), a user file WITHOUT import declarations reaching restricted methods through variables of a sibling file, method expression (*dd.T).M, renamed import", Bounds: map[string]interface{}{"skeleton": "c04Src{D2,U1,U3,W}", "holes": 5}},
+				{Harness: "zzverif/zzh.ZZC04SelfName", Desc: "a declaring package whose import path is a single element (core) and a foreign package that carries that element as its NAME (zzmod/app/core): bare and foreign allow-lists do not admit it (function call, type literal)", Bounds: map[string]interface{}{"skeleton": "c04Src{Core,AppCore}", "holes": 2}},
 			},
 			Outside:     []string{"dot-imports; generic items; references through type aliases (see C13)"},
 			Assumptions: []string{"program skeletons parsed/type-checked by go/parser + go/types; facts passed in-process"},
